@@ -36,6 +36,20 @@ def shared_containers(model):
                             objs += 1
                 if objs:
                     out.setdefault(name, {})[var] = v
+    # holders that are filled at run time (threading.local(), {}, [], dict())
+    for name, mi in model.modules.items():
+        if not name.endswith((".sigver", ".pack", ".entity")) and \
+                ".cryptography" not in name:
+            continue
+        for var, vals in mi.assigns.items():
+            for v in vals:
+                empty = isinstance(v, (ast.Dict, ast.List, ast.Set)) and not (
+                    v.keys if isinstance(v, ast.Dict) else v.elts)
+                holder_call = isinstance(v, ast.Call) and call_name(v) in (
+                    "local", "dict", "list", "set", "defaultdict",
+                    "OrderedDict", "WeakValueDictionary", "WeakKeyDictionary")
+                if (empty or holder_call) and var not in ("__all__",):
+                    out.setdefault(name, {})[var] = v
     return out
 
 
@@ -76,6 +90,13 @@ def writes_to_shared(model, fnode, mi, shared_names, qual):
                     if expr.args else None
             return None
         if isinstance(expr, ast.Attribute):
+            if isinstance(expr.value, ast.Name) and \
+                    expr.value.id in shared_names and \
+                    not rd.defs_of(expr.value.id):
+                return expr.value.id          # holder.attr (e.g. thread-local)
+            inner = from_shared(expr.value, nid, depth + 1)
+            if inner:
+                return inner
             # module.SIGNER_ALGS
             tg = model.resolve_expr_all(mi, expr)
             for t in tg:
@@ -94,6 +115,10 @@ def writes_to_shared(model, fnode, mi, shared_names, qual):
         for t in targets:
             for tt in (t.elts if isinstance(t, (ast.Tuple, ast.List)) else [t]):
                 if isinstance(tt, ast.Attribute):
+                    if isinstance(tt.value, ast.Name) and \
+                            tt.value.id in shared_names and \
+                            not rd.defs_of(tt.value.id):
+                        continue      # initialising the holder itself
                     src = from_shared(tt.value, n.id)
                     if src:
                         hits.append((s, "%s of an element of %s" % (tt.attr, src)))
